@@ -25,6 +25,8 @@ PACKREC = z3.Function('PACK_qqQQLQ20sH', I, I, I, I, I, I, B, I, B)
 JOIN = z3.Function('PATH_JOIN', B, B, B)
 PROCF = z3.Function('PROCESS', sort_of(PROC), B, B)
 
+THEPROC = z3.Const('the_process', sort_of(PROC))
+
 def build(reg):
     fs.install(reg)
     reg.classes[STAT] = ClassSpec(STAT, {'name': BYTES, 'ctime': INT, 'mtime': INT, 'dev': INT, 'ino': INT, 'mode': INT, 'size': INT, 'digest': BYTES})
@@ -34,7 +36,8 @@ def build(reg):
     reg.always_truthy = {'OutFile', 'InFile'}
     reg.trusted += [
         'premise of the property: stat data identifies content, i.e. process(path) is a function DIG(process, name, ctime, mtime, dev, ino, mode, size)',
-        'ASSUMED contract of FileIndex.__readEntry: the old index file consists of truthful records (only truthful records are ever written: proved precondition of __writeEntry; the byte-level prefix copy up to __inPosOld is not modelled)',
+        'file invariant of the old index (axiom): signature, then complete records, each truthful; it is closed under what __writeEntry produces (record-aligned prefix of the old file ++ appended truthful records: both proved), the induction over runs itself is not mechanised',
+        'struct.unpack(CACHE_ENTRY_FMT, raw): 8 uninterpreted field functions of raw; calcsize == 66',
         'os.stat_result fields are uninterpreted functions of the stat object; maskIno is an uninterpreted function; struct.pack(CACHE_ENTRY_FMT, ...) is an uninterpreted function of its 8 fields',
     ]
     for n, f in SF.items():
@@ -65,58 +68,100 @@ def build(reg):
     @reg.model('OutFile.write')
     def ow(eng, st, args, kw, node):
         st.ghost['out'] = V(BYTES, z3.Concat(st.ghost['out'].z, args[1].z)); return [(st, mk_int(z3.Length(args[1].z)))]
-    INPREFIX = z3.Function('INFILE_PREFIX', I, B)
+    # old index file as a ghost byte string with a read cursor
+    INDATA = z3.Const('INFILE_DATA', B)
+    def incur(st): return st.ghost['incur'].z
     @reg.model('InFile.tell')
-    def it(eng, st, args, kw, node): return [(st, mk_int(fresh_z(INT, 'tell')))]
+    def it(eng, st, args, kw, node): return [(st, mk_int(incur(st)))]
     @reg.model('InFile.seek')
-    def isk(eng, st, args, kw, node): return [(st, mk_int(args[1].z))]
+    def isk(eng, st, args, kw, node):
+        st.ghost['incur'] = mk_int(args[1].z); return [(st, mk_int(args[1].z))]
     @reg.model('InFile.read')
     def ir(eng, st, args, kw, node):
-        eng.assume_note('InFile.read(n) after seek(0) returns the first n bytes of the old index (uninterpreted INFILE_PREFIX(n))')
-        return [(st, V(BYTES, INPREFIX(args[1].z)))]
-
+        n = args[1].z; c = incur(st); ln = z3.Length(INDATA)
+        avail = z3.If(c >= ln, 0, ln - c); take = z3.If(n < avail, z3.If(n < 0, 0, n), avail)
+        st.ghost['incur'] = mk_int(c + take)
+        return [(st, V(BYTES, z3.SubSeq(INDATA, c, take)))]
+    UNP = [z3.Function('UNPACK_qqQQLQ20sH_%d' % i, B, (B if i == 6 else I)) for i in range(8)]
+    SIZE = 66
+    reg.constants['bob.utils.DirHasher.FileIndex.CACHE_ENTRY_SIZE'] = lambda e, st: mk_int(SIZE)
+    @reg.model('struct.unpack')
+    def unpack(eng, st, args, kw, node):
+        if z3.is_string_value(args[0].z) and args[0].z.as_string() == '=qqQQLQ20sH':
+            raw = args[1].z
+            return [(st, V(PyTupT(8), [V(BYTES if i == 6 else INT, UNP[i](raw)) for i in range(8)]))]
+        return None
+    reg.pure_names |= {'struct.unpack', 'InFile.tell'}
+    ALIGNED = z3.Function('INFILE_RECORD_BOUNDARY', I, z3.BoolSort())
+    def rec_at(p):
+        raw = z3.SubSeq(INDATA, p, SIZE); nl = UNP[7](raw)
+        return raw, nl, z3.SubSeq(INDATA, p + SIZE, nl)
+    def file_inv():
+        """the old index was written by __writeEntry only: signature, then complete truthful records (see DESIGN: closed under
+        'record-aligned prefix ++ appended truthful records', which is what __writeEntry produces)"""
+        p = z3.Int('fp'); raw, nl, name = rec_at(p)
+        return [ALIGNED(4),
+                z3.ForAll([p], z3.Implies(z3.And(ALIGNED(p), p + SIZE <= z3.Length(INDATA)),
+                    z3.And(nl >= 0, p + SIZE + nl <= z3.Length(INDATA), ALIGNED(p + SIZE + nl), p >= 4,
+                           UNP[6](raw) == DIG(THEPROC, name, UNP[0](raw), UNP[1](raw), UNP[2](raw), UNP[3](raw), UNP[4](raw), UNP[5](raw)))),
+                    patterns=[ALIGNED(p)])]
+    reg.axioms['always:old-index-file-invariant'] = file_inv
+    def cursor_inv(v):
+        """reader invariant of the object: the prefetch position is a record boundary and the file cursor stands there"""
+        me = v.self
+        return z3.Implies(z3.Not(me.f('__inFile').is_none()), z3.And(ALIGNED(me.f('__inPos').z), ALIGNED(me.f('__inPosOld').z),
+                                                                   z3.Or(incur(v.st) == me.f('__inPos').z, z3.And(incur(v.st) >= me.f('__inPos').z, z3.Length(INDATA) - incur(v.st) < SIZE)),      # at the boundary, or the end of the file was hit me.f('__inPosOld').z <= me.f('__inPos').z,
+                                                                   me.f('__inPos').z <= z3.Length(INDATA), me.f('__inPosOld').z >= 4))
     def truthful(proc_z, rec):
         return rec.digest.z == DIG(proc_z, rec.name.z, rec.ctime.z, rec.mtime.z, rec.dev.z, rec.ino.z, rec.mode.z, rec.size.z)
     def dig_of(proc_z, name_z, st_z):
         return DIG(proc_z, name_z, SF['st_ctime_ns'](st_z), SF['st_mtime_ns'](st_z), SF['st_dev'](st_z), MASKINO(SF['st_ino'](st_z)), SF['st_mode'](st_z), SF['st_size'](st_z))
-    THEPROC = z3.Const('the_process', sort_of(PROC))
 
     def ghost_init(eng, st):
         st.ghost['out'] = V(BYTES, fresh_z(BYTES, 'out')); st.ghost['out_created'] = V(BOOL, fresh_z(BOOL, 'out_created'))
+        st.ghost['incur'] = V(INT, fresh_z(INT, 'incur'))
     reg.ghost_const |= set()
 
-    # __readEntry: assumed contract (see trusted base)
+    # __readEntry: decoding of one record, proved against the file invariant
+    def re_req(s): return [('cursor-at-a-record-boundary', cursor_inv(s))]
     def re_post(o, n, r):
         cur = n.self.f('__current')
         return z3.And(z3.Implies(r.z, truthful(THEPROC, cur)),
                       z3.Implies(z3.Not(r.z), z3.And(*[cur.f(x).z == o.self.f('__current').f(x).z for x in ('name', 'ctime', 'mtime', 'dev', 'ino', 'mode', 'size', 'digest')])),
-                      n.self.f('__mismatch').z == o.self.f('__mismatch').z)
-    reg.add(Unit(F, 'DirHasher.FileIndex.__readEntry', {'self': ObjT(FI)}, 'C11', ensures=[('truthful', re_post)], result=BOOL,
-                 modifies=['self.__inPos', 'self.__inPosOld', 'self.__current'], verify=False, modifies_ghost=False))
-
-    units = []
+                      cursor_inv(n), z3.Implies(r.z, n.self.f('__inPosOld').z == o.self.f('__inPos').z),
+                      z3.Implies(z3.Not(r.z), z3.And(n.self.f('__inPos').z == o.self.f('__inPos').z, n.self.f('__inPosOld').z == o.self.f('__inPosOld').z)),
+                      n.self.f('__mismatch').z == o.self.f('__mismatch').z, n.self.f('__inFile').is_none() == o.self.f('__inFile').is_none())
+    u_re = Unit(F, 'DirHasher.FileIndex.__readEntry', {'self': ObjT(FI)}, 'C11', requires=re_req, ghost_init=ghost_init, ensures=[('decodes-the-next-record-of-the-old-index', re_post)], result=BOOL,
+                 modifies=['self.__inPos', 'self.__inPosOld', 'self.__current'], modifies_ghost=['incur'], note='binary record reader: field order, name length, positions')
+    reg.add(u_re)
+    units = [u_re]
     # __match: True only if name and every stat field agree; the prefetched record stays truthful
-    def m_req(s): return [('current-truthful', truthful(THEPROC, s.self.f('__current')))]
+    def m_req(s): return [('current-truthful', truthful(THEPROC, s.self.f('__current'))), ('cursor-at-a-record-boundary', cursor_inv(s))]
     def m_post(o, n, r):
         cur = n.self.f('__current'); st_ = o.var('st').z
         agree = z3.And(cur.name.z == o.name.z, cur.ctime.z == SF['st_ctime_ns'](st_), cur.mtime.z == SF['st_mtime_ns'](st_), cur.dev.z == SF['st_dev'](st_),
                        cur.ino.z == MASKINO(SF['st_ino'](st_)), cur.mode.z == SF['st_mode'](st_), cur.size.z == SF['st_size'](st_))
-        return z3.And(r.z == agree, truthful(THEPROC, cur), n.self.f('__mismatch').z == o.self.f('__mismatch').z)
+        return z3.And(r.z == agree, truthful(THEPROC, cur), n.self.f('__mismatch').z == o.self.f('__mismatch').z, cursor_inv(n), n.self.f('__inFile').is_none() == o.self.f('__inFile').is_none())
     def m_loop(cur, old):
-        return [('current-truthful', truthful(THEPROC, cur.self.f('__current'))), ('frame', cur.self.f('__mismatch').z == old.self.f('__mismatch').z)]
+        return [('current-truthful', truthful(THEPROC, cur.self.f('__current'))), ('frame', z3.And(cur.self.f('__mismatch').z == old.self.f('__mismatch').z, cur.self.f('__inFile').is_none() == old.self.f('__inFile').is_none())),
+                ('cursor-at-a-record-boundary', cursor_inv(cur))]
     units.append(Unit(F, 'DirHasher.FileIndex.__match', {'self': ObjT(FI), 'name': BYTES, 'st': STR_}, 'C11', requires=m_req, ghost_init=ghost_init,
         ensures=[('match-iff-name-and-all-stat-fields-agree', m_post)], loops={1: LoopSpec(inv=m_loop)}, result=BOOL,
-        modifies=['self.__inPos', 'self.__inPosOld', 'self.__current'], modifies_ghost=False, note='merge-walk: advance the old index up to `name`'))
+        modifies=['self.__inPos', 'self.__inPosOld', 'self.__current'], modifies_ghost=['incur'], note='merge-walk: advance the old index up to `name`'))
     reg.add(units[-1])
 
     # __writeEntry: only truthful records may be written; record layout
-    def w_req(s): return [('record-is-truthful', s.digest.z == dig_of(THEPROC, s.name.z, s.var('st').z))]
+    def w_req(s): return [('record-is-truthful', s.digest.z == dig_of(THEPROC, s.name.z, s.var('st').z)), ('cursor-at-a-record-boundary', cursor_inv(s))]
     def w_post(o, n, r):
         st_ = o.var('st').z
         rec = z3.Concat(PACKREC(SF['st_ctime_ns'](st_), SF['st_mtime_ns'](st_), SF['st_dev'](st_), MASKINO(SF['st_ino'](st_)), SF['st_mode'](st_),
                                 SF['st_size'](st_), o.digest.z, z3.Length(o.name.z)), o.name.z)
+        created = o.self.f('__outFile').is_none()
+        prefix = z3.If(o.self.f('__inFile').is_none(), z3.SubSeq(z3.Concat(*[z3.Unit(z3.BitVecVal(c, 8)) for c in b'BOB2']), 0, 4), z3.SubSeq(INDATA, 0, o.self.f('__inPosOld').z))
         return z3.And(z3.SuffixOf(rec, n.ghost.out.z),
-                      z3.Implies(z3.Not(o.self.f('__outFile').is_none()), n.ghost.out.z == z3.Concat(o.ghost.out.z, rec)))
+                      z3.Implies(z3.Not(created), n.ghost.out.z == z3.Concat(o.ghost.out.z, rec)),
+                      z3.Implies(created, n.ghost.out.z == z3.Concat(prefix, rec)),       # new index = record-aligned prefix of the old one (or the signature) ++ this record
+                      cursor_inv(n), n.self.f('__inFile').is_none() == o.self.f('__inFile').is_none())
     units.append(Unit(F, 'DirHasher.FileIndex.__writeEntry', {'self': ObjT(FI), 'name': BYTES, 'st': STR_, 'digest': BYTES}, 'C11', requires=w_req,
         ghost_init=ghost_init, ensures=[('record-appended-with-documented-layout', w_post)], modifies=['self.__outFile'],
         note='new index = copied prefix + appended records'))
@@ -129,7 +174,7 @@ def build(reg):
                                                               PROCF(THEPROC, s.prefix.z) == dig_of(THEPROC, s.name.z, s.var('st').z)))]
     def c_post(o, n, r):
         return z3.And(r.z == dig_of(THEPROC, o.name.z, o.var('st').z), truthful(THEPROC, n.self.f('__current')),
-                      z3.Implies(o.self.f('__mismatch').z, n.self.f('__mismatch').z))
+                      z3.Implies(o.self.f('__mismatch').z, n.self.f('__mismatch').z), cursor_inv(n))
     units.append(Unit(F, 'DirHasher.FileIndex.check', {'self': ObjT(FI), 'prefix': BYTES, 'name': BYTES, 'st': STR_, 'process': PROC}, 'C11',
         requires=c_req, ghost_init=ghost_init, ensures=[('cached-digest-equals-computed-digest', c_post)], result=BYTES,
         modifies=['self.__inPos', 'self.__inPosOld', 'self.__current', 'self.__mismatch', 'self.__outFile'],
@@ -139,6 +184,6 @@ def build(reg):
         ghost_init=ghost_init, ensures=[('uncached-is-process', n_post)], result=BYTES))
     units += [Watch(F, 'DirHasher.__hashDir', 'scandir walk, sorted entries, digest over mode+entry digest+name (comprehension/sorted not in the verified subset yet)'),
               Watch(F, 'DirHasher.__hashEntry', 'per file type digest'), Watch(F, 'DirHasher.__hashLink', 'link target digest'), Watch(F, 'hashFile', 'content digest'),
-              Watch(F, 'DirHasher.FileIndex.__readEntry', 'binary record reader (assumed contract)'), Watch(F, 'DirHasher.FileIndex.open', 'index signature check'),
+              Watch(F, 'DirHasher.FileIndex.open', 'index signature check'),
               Watch(F, 'DirHasher.FileIndex.close', 'atomic replace of the index'), Watch(F, 'DirHasher.hashDirectory', 'open/close index around the walk')]
     return units
